@@ -46,7 +46,10 @@ def env():
         def _trace(self, x):
             return self.tag
 
-        cls = type("Stub_" + nm, (NumpyBackend,), {"trace": _trace, "tag": nm}, backend_name=nm)
+        def _eye(self, n):
+            return self.tag
+
+        cls = type("Stub_" + nm, (NumpyBackend,), {"trace": _trace, "eye": _eye, "tag": nm}, backend_name=nm)
         stubs[nm] = cls
     be_file = inspect.getsourcefile(BM)
     ta_file = inspect.getsourcefile(TM)
@@ -143,7 +146,7 @@ def _gen_ops(rng, cfg, depth, budget):
         elif r < 2.5:
             ops.append({"op": "get", "mgr": mgr})
         elif r < 3.5:
-            ops.append({"op": "probe", "mgr": mgr})
+            ops.append({"op": "probe", "mgr": mgr, "fn": 0 if rng.random() < 0.7 else 1})
         elif r < 4.0:
             ops.append({"op": "attr", "mgr": "be"} if "be" in cfg["mgrs"] else {"op": "get", "mgr": mgr})
         else:
@@ -177,7 +180,7 @@ def gen_record(rng):
         ops = []
         for _ in range(rng.randint(1, 4)):
             m = rng.choice(cfg["mgrs"])
-            ops.append({"op": rng.choice(["get", "probe"]), "mgr": m})
+            ops.append({"op": rng.choice(["get", "probe"]), "mgr": m, "fn": 0 if rng.random() < 0.7 else 1})
         threads.append({"role": "observer", "ops": ops + final_ops(cfg)})
     threads.append({"role": "fresh", "gated": True, "ops": final_ops(cfg)})
     return {"property": PROP, "config": cfg, "threads": threads}
@@ -240,6 +243,7 @@ class Run:
         TM._THREAD_LOCAL_DATA.__dict__.clear()
         n1 = E["NumpyBackend"]()
         n1.trace = lambda x: "numpy@1"
+        n1.eye = lambda n: "numpy@1"
         j1 = E["stubs"]["jax"]()
         j1.tag = "jax@1"
         self.insts = {"numpy@1": n1, "jax@1": j1}
@@ -276,13 +280,19 @@ class Run:
                 h = self.invoke(t, "attr", mgr="be")
                 self.ret(h, self.E["tl"].backend_name)
             elif k == "probe":
-                h = self.invoke(t, "probe", mgr=op["mgr"])
+                # fn 0/1: two different dispatched functions per manager, so that a per-function
+                # dispatch fault (stale per-name cache, static dispatch of a subset) is observable
+                fn = op.get("fn", 0)
+                h = self.invoke(t, "probe", mgr=op["mgr"], fn=fn)
                 if op["mgr"] == "be":
-                    v = self.E["tl"].trace(self.E["B"])
+                    v = self.E["tl"].trace(self.E["B"]) if fn == 0 else self.E["tl"].eye(2)
                     self.ret(h, v if isinstance(v, str) else "numpy")
                 else:
                     del t.probe_hits[:]
-                    self.E["tlt"].kronecker([self.E["A"], self.E["B"]])
+                    if fn == 0:
+                        self.E["tlt"].kronecker([self.E["A"], self.E["B"]])
+                    else:
+                        self.E["tlt"].inner(self.E["A"], self.E["B"])
                     hits = t.probe_hits
                     self.ret(h, hits[0] if hits else "none")
             elif k == "set":
